@@ -10,6 +10,8 @@
 #include "C17_h264gen.h"    /* g_rnd, sc_pick, tz_pick */
 #include "tape.h"
 
+/* set for the streams that will be mutated (kind 5): the SPS writer then also produces out-of-range counts */
+static bool g265_bad_counts;
 struct sps265 { bool valid; int nal; int vps_id; bool sep_plane; int addr_bits;
     /* VUI (E.2.1) as far as it changes the syntax of the picture timing SEI message */
     bool vui, frame_field, hrd, sub_pic; int crd_len, dod_len, du_len; };
@@ -264,6 +266,12 @@ static void g265_sps(struct es *e, struct g265 *g, struct tape *t, int id, int v
             rb_ue(&w, 0);                   /* abs_delta_rps_minus1 */
             int ndelta = i == 1 ? 1 : 2;    /* NumDeltaPocs of the reference set (set 0: 1, set 2: 2) */
             for (int j = 0; j <= ndelta; j++) rb_u(&w, 1, 1);   /* used_by_curr_pic_flag */
+        } else if (g265_bad_counts) {
+            /* streams that are going to be mutated anyway (nothing is expected of them but clean handling): counts that are
+             * each within sps_max_dec_pic_buffering_minus1 (4) but whose sum may not be, with as many entries as announced */
+            int nneg = 1 + (a >> 3) % 4, npos = (c >> 2) % 5;
+            rb_ue(&w, nneg); rb_ue(&w, npos);
+            for (int j = 0; j < nneg + npos; j++) { rb_ue(&w, j & 1); rb_u(&w, 1, 1); }
         } else {
             rb_ue(&w, 1);                   /* num_negative_pics */
             rb_ue(&w, i ? 1 : 0);           /* num_positive_pics */
